@@ -104,7 +104,8 @@ ApplyConfig(m, o, e, obj, step) ==
   IF "reject" \in DOMAIN e
   THEN R(m, o, IF e.exc # NoExc /\ e.exc # "timeout" THEN Ok ELSE F("config.rejected", step, "an exception", e.exc), 0) ELSE
   \* a new tolerance with the same period (C13): the bounds mean what they meant, the counter of the next data set uses it
-  IF "tol" \in DOMAIN e /\ m.phase \in {"parsed", "offline"} /\ e.period = m.cfg.period
+  \* (also on an online monitor, and with the same period re-stated in another unit: the operators keep their sample counts)
+  IF "tol" \in DOMAIN e /\ m.phase \in {"parsed", "offline", "online", "pastified"} /\ e.period = m.cfg.period
   THEN R([m EXCEPT !.cfg = [m.cfg EXCEPT !.tol = e.tol]], o, ExcClass(TRUE, e, "config.exc", step), 0) ELSE
   IF ~IsWritten(obj) \/ m.phase \notin {"parsed", "offline"} THEN R(m, [o EXCEPT !.dead = TRUE], Ok, 0)
   ELSE LET st == NormStatus(obj.written, e.units) IN
